@@ -271,7 +271,7 @@ variable {T : Nat} (G : Forest H) (xs : List H) (x : H) {t c : Nat}
 
 /-- **the loop of `undoSingleAdd` on a full forest**, by induction on the low trees (highest first)
 that are still merged into the accumulated tree -/
-theorem funadd_levels (cr : CR H) (hn63 : G.numLeaves + xs.length + 1 < 2 ^ 63)
+theorem funadd_levels (nz : NZ H) (hn63 : G.numLeaves + xs.length + 1 < 2 ^ 63)
     (hfit : forestRows (G.numLeaves + xs.length + 1) ≤ T)
     (htc : G.numLeaves + xs.length = 2 ^ (t + 1) * c + (2 ^ t - 1))
     (hyp : Hyg (G.addMany xs))
@@ -308,7 +308,7 @@ theorem funadd_levels (cr : CR H) (hn63 : G.numLeaves + xs.length + 1 < 2 ^ 63)
     obtain ⟨ok0, hnodes0⟩ := step0_pf (G.addMany xs) x (by rw [hnp]; omega) hyp hxfresh hx0 hxph
     rw [hnp] at ok0 hnodes0
     rw [hY] at inv
-    have L' := laws_of_ok cr ok0
+    have L' := laws_of_ok nz ok0
     have hpos : ∀ q h b, (q, h, b) ∈ (G.addMany xs).nodes → q ≠ (0, G.numLeaves + xs.length) := by
       rintro q h b hm rfl
       have h1 := MapAdd.node_lt hm
@@ -395,7 +395,7 @@ theorem funadd_levels (cr : CR H) (hn63 : G.numLeaves + xs.length + 1 < 2 ^ 63)
       obtain ⟨ok', hN', hR', hfresh⟩ := stepA_pf Y (rootPos (G.numLeaves + xs.length) ro.length) tr
         (mergeLow ro.reverse (.leaf x)) heven okj'
       rw [hPρ] at ok' hN' hR' hfresh
-      have L' := laws_of_ok cr ok'
+      have L' := laws_of_ok nz ok'
       have fa1 := FAq.drop L' inv
       have fa2 : FA (upd A (ro.length + 1, (G.numLeaves + xs.length) >>> (ro.length + 1)) none)
           (dropC (ro.length + 1, (G.numLeaves + xs.length) >>> (ro.length + 1)) A C)
@@ -441,7 +441,7 @@ theorem funadd_levels (cr : CR H) (hn63 : G.numLeaves + xs.length + 1 < 2 ^ 63)
         exact encP_inj' hT ⟨hv1.1, hv1.2⟩ hρv e
       rw [undoSingleAddLoop_skip rep.rows hT hsv (by show 1 ≤ ro.length + 1; omega) ro.length _ hne, hc1,
         filter_lt_succ_not_mem _ _ hnotin]
-      obtain ⟨m', A', C', hloop, rep', hnl', hfl', fa'⟩ := funadd_levels cr hn63 hfit htc hyp hx0 hxph hxfresh ro
+      obtain ⟨m', A', C', hloop, rep', hnl', hfl', fa'⟩ := funadd_levels nz hn63 hfit htc hyp hx0 hxph hxfresh ro
         (Y ++ [(rootPos (G.numLeaves + xs.length) ro.length, some tr)]) (by omega) hY' _ _ _ rep1 (hfl1.trans hfull)
         (Or.inl fa2)
       exact ⟨m', A', C', hloop, rep', hnl'.trans hnl1, hfl', fa'⟩
@@ -454,8 +454,8 @@ theorem funadd_levels (cr : CR H) (hn63 : G.numLeaves + xs.length + 1 < 2 ^ 63)
       obtain ⟨ok', hN', hR'⟩ := stepB_pf Y (ro.length, (G.numLeaves + xs.length) >>> ro.length)
         (mergeLow ro.reverse (.leaf x)) okj'
       rw [hPσ] at ok' hN' hR'
-      have L' := laws_of_ok cr ok'
-      have L := laws_of_ok cr okj'
+      have L' := laws_of_ok nz ok'
+      have L := laws_of_ok nz okj'
       have hρN : (sib (ro.length, (G.numLeaves + xs.length) >>> ro.length), (zero : H), false) ∈
           PForest.nodes (Y ++ [(sib (ro.length, (G.numLeaves + xs.length) >>> ro.length), none),
             ((ro.length, (G.numLeaves + xs.length) >>> ro.length), some (mergeLow ro.reverse (.leaf x)))]) := by
@@ -501,14 +501,14 @@ theorem funadd_levels (cr : CR H) (hn63 : G.numLeaves + xs.length + 1 < 2 ^ 63)
         unfold encE; rw [hc0, hrp]
       rw [hhead, undoSingleAddLoop_place rep.rows hT hsv (by show 1 ≤ ro.length + 1; omega) ro.length _
         (by rw [hc0]; exact hpl), hc1, hc0]
-      obtain ⟨m', A', C', hloop, rep', hnl', hfl', fa'⟩ := funadd_levels cr hn63 hfit htc hyp hx0 hxph hxfresh ro
+      obtain ⟨m', A', C', hloop, rep', hnl', hfl', fa'⟩ := funadd_levels nz hn63 hfit htc hyp hx0 hxph hxfresh ro
         (Y ++ [(rootPos (G.numLeaves + xs.length) ro.length, none)]) (by omega) hY' _ _ _ rep3
         (show m2.full = true from hfl2.trans (hfl1.trans hfull)) (Or.inr fa2)
       exact ⟨m', A', C', hloop, rep', hnl'.trans (hnl2.trans hnl1), hfl', fa'⟩
 end levels
 
 /-- **`undoSingleAdd` on a full forest**: the last addition `x` is taken back -/
-theorem funadd_single (cr : CR H) {T : Nat} (G : Forest H) (xs : List H) (x : H)
+theorem funadd_single (nz : NZ H) {T : Nat} (G : Forest H) (xs : List H) (x : H)
     (hn63 : G.numLeaves + xs.length + 1 < 2 ^ 63)
     (hfit : forestRows (G.numLeaves + xs.length + 1) ≤ T)
     (hyp : Hyg (G.addMany (xs ++ [x])))
@@ -544,7 +544,7 @@ theorem funadd_single (cr : CR H) {T : Nat} (G : Forest H) (xs : List H) (x : H)
       (os.reverse.length, (G.numLeaves + xs.length) >>> os.reverse.length) := by
     rw [List.length_reverse, List.reverse_reverse, hlen, ← hdec', nodes_ofForest]
     exact Or.inl fa
-  obtain ⟨m', A', C', hloop, rep', hnl', hfl', fa'⟩ := funadd_levels G xs x cr hn63 hfit htc hyG hx0 hxph hxfresh
+  obtain ⟨m', A', C', hloop, rep', hnl', hfl', fa'⟩ := funadd_levels G xs x nz hn63 hfit htc hyG hx0 hxph hxfresh
     os.reverse Y (by rw [List.length_reverse, hlen]; exact Nat.le_refl _) (by rw [List.reverse_reverse]; exact hdec.symm)
     m A C rep hfull inv0
   rw [List.length_reverse, hlen, filter_all _ _ (fun a ha => by simpa using newRows_lt G htc a ha), ← destroyed_succ] at hloop
@@ -558,7 +558,7 @@ theorem funadd_single (cr : CR H) {T : Nat} (G : Forest H) (xs : List H) (x : H)
     exact BitVec.add_sub_cancel _ _
 
 /-- **the loop of `undoAdd` on a full forest**: all additions `xs` are taken back, the last one first -/
-theorem funadd_loop (cr : CR H) {T : Nat} (G : Forest H) : ∀ (xs : List H),
+theorem funadd_loop (nz : NZ H) {T : Nat} (G : Forest H) : ∀ (xs : List H),
     G.numLeaves + xs.length < 2 ^ 63 → forestRows (G.numLeaves + xs.length) ≤ T → Hyg (G.addMany xs) →
     ∀ {m : MapPollard H} {A : Pos → Option (Leaf H)} {C : H → Option Pos}, Rep m T A C → m.full = true →
     m.numLeaves = BitVec.ofNat 64 (G.numLeaves + xs.length) →
@@ -584,7 +584,7 @@ theorem funadd_loop (cr : CR H) {T : Nat} (G : Forest H) : ∀ (xs : List H),
     intro hn63 hfit hyp m A C rep hfull hnl fa
     subst hk'
     rw [← Nat.add_assoc] at hn63 hfit hnl
-    obtain ⟨m1, A1, C1, hrun, rep1, hnl1, hfl1, fa1⟩ := funadd_single cr G xs x hn63 hfit hyp rep hfull hnl fa
+    obtain ⟨m1, A1, C1, hrun, rep1, hnl1, hfl1, fa1⟩ := funadd_single nz G xs x hn63 hfit hyp rep hfull hnl fa
     have hyp1 : Hyg (G.addMany xs) := by
       rw [addMany_snoc] at hyp
       have hll : ((G.addMany xs).add x).liveLeaves = (G.addMany xs).liveLeaves ++ [x] := by
